@@ -1268,6 +1268,8 @@ def classify(tu, f, s):
     name = s.name
     if f.get('implicit') or f.get('defaulted'):
         return 'compiler-generated special member', None
+    if '(anonymous class)::operator()' in f['q'] or '(lambda at ' in f['q']:
+        return 'lambda body (decided where the lambda is applied)', None
     if s.rec == 'rkcommon::math::vec_t' and s.shape and isinstance(s.shape['n'], int):
         if s.kind == 'CXXConstructorDecl':
             if kinds and all(k in ('vec', 'scalar', 'ptr') for k in kinds):
@@ -1599,6 +1601,7 @@ def analyse(ctx, tu, label='', ir=None):
         inl = None
         try:
             inl = Inliner(tu, f, v, lambda g: tu.fn_file(g) == VEC_H and classify(tu, g, signature(tu, g))[0] is None)
+            v.inl = inl
             v._body = inl.stmts(list(v.body()))
             fn(res, s, v)
         except Exception as e:  # a rule must never turn an engine problem into a verdict
@@ -1677,7 +1680,10 @@ def typed_callee_check(res, s, v, tu, f, fam):
     if fam == 'binary operator, mixed element types':
         return
     bad = []
+    inlined = getattr(getattr(v, 'inl', None), 'used_names', set())
     for name, q, node in v.callees:
+        if name in inlined or '(anonymous class)::operator()' in (q or '') or '(lambda at ' in (q or ''):
+            continue          # a helper / lambda whose body was inlined: its own callees are in the list
         cf_params = []
         sd = tu.sd(node)
         fty = sd.get('fty', '')
